@@ -83,7 +83,7 @@ def main():
         for j in jobs: print(j.name)
         print(len(jobs), 'jobs'); return 0
     nworkers = a.jobs or max(2, min(12, (os.cpu_count() or 4) - 3))
-    prop_dir = os.path.join(E.BUILD, pid); os.makedirs(prop_dir, exist_ok=True)
+    prop_dir = os.path.join(E.BUILD, pid + ('' if E.REPO == '/repo' else '@' + re.sub(r'\W', '_', E.REPO)[-40:])); os.makedirs(prop_dir, exist_ok=True)   # separate work directories per source tree
     use_cache = not (a.no_cache or os.environ.get('VERIF_NO_CACHE'))
     print('[%s] %s tier: %d bounded symbolic checks, %d workers' % (pid, tier, len(jobs), nworkers), flush=True)
     results = {}
